@@ -63,6 +63,18 @@ CHECKS = {
         design_ref="DESIGN.md section 3 C10, section 8.4m",
         technique="who-must-call with literal argument check (must-facts before the parse call); who-may-call; argument provenance",
     ),
+    "C12": dict(
+        category="other",
+        text="Decides the units and base discipline of position arithmetic at every hand-written construction of a Token in the parser "
+             "and the migrator (17 sites) and in Token::end_line/end_column: `column` never has a byte count (str::len, Match::start/end, "
+             "find/rfind) arithmetically combined into it - counting goes through chars().count(); `pos`/`length` never come from a "
+             "character count; a token derived from another token takes pos/line/column from values that depend on the parent's; the "
+             "parol token conversion maps start_line/start_column/start/len() to line/column/pos/length. On its first run the rule "
+             "confirmed finding F6 in both copies of split_comment_token (byte length added to the column, pos relative to the parent), "
+             "shown with the binary and fixed. It does not decide that positions are right for every input nor the source order of tokens.",
+        design_ref="DESIGN.md section 3 C12, section 8.4n",
+        technique="provenance with a units table (byte-valued vs character-valued sources) restricted to arithmetic combination; parent-dependence of derived positions; field-to-field mapping",
+    ),
     "C13": dict(
         category="other",
         text="Decides the provenance chain of a source-map entry across three crates: Emitter::push_token anchors a token's text with "
